@@ -109,8 +109,15 @@ def compare(F, paths, expected, allow_flush_at=None):
 
 
 def unit_forms(chk, F, tier='quick'):
+    model, spec, P0, allp = scanners.product(F, 'polling')
+    n = 0
+    for k in (range(16) if tier == 'thorough' else (0,)):
+        n += _unit_forms_on_channel(chk, F, tier, model, allp[k], k)
+    chk.floor('unit_compositions_%s' % F.cfg, 700, n)
+
+
+def _unit_forms_on_channel(chk, F, tier, model, P, k):
     cfg = F.cfg
-    model, spec, P, allp = scanners.product(F, 'polling')
     n = 0
     end_tags = set()
     for key in P.order:
@@ -118,7 +125,7 @@ def unit_forms(chk, F, tier='quick'):
         tag = ss[0]
         shape = A.spec_shape(ss)
         base = dict(cons0)
-        base.update({CH: VS.one(0), POLLCH: VS.one(0), X: VS(0, 127), Y: VS(0, 127)})
+        base.update({CH: VS.one(k), POLLCH: VS.one(k), X: VS(0, 127), Y: VS(0, 127)})
         for v in V:
             base[v] = VS(0, 127)
         variants = []
@@ -139,10 +146,10 @@ def unit_forms(chk, F, tier='quick'):
             if tag in ('S1',) or vname != 'in-place':
                 scs.update(lsb_first(N, base))       # "LSB then MSB directly after x,y" (and from a clean waiting state)
             for sname, (inputs, expected) in sorted(scs.items()):
-                okey = '%s/unit/%s/%s/%s/from-%s' % (PID, cfg, sname, vname, shape)
+                okey = '%s/unit/%s/%s/%s/from-%s%s' % (PID, cfg, sname, vname, shape, '/channel-%d' % k if k else '')
 
                 def ev(cs=cs, base=base, prefix=prefix, pexp=pexp, inputs=inputs, expected=expected, okey=okey, tag=tag, vname=vname):
-                    paths = seq.run_sequence(F, model, P.roles, cs, base, prefix + inputs)
+                    paths = seq.run_sequence(F, model, P.roles, cs, base, prefix + inputs, k=k)
                     exp = list(pexp) + list(expected)
                     # an MSB still pending from earlier traffic is flushed by the first contributing message
                     flush_at = 0 if tag == 'P6' else None
@@ -158,7 +165,7 @@ def unit_forms(chk, F, tier='quick'):
                     continue
                 guarded(chk, okey, 'unit composition on the extracted transition function', ev)
                 n += 1
-    chk.floor('unit_compositions_%s' % cfg, 700, n)
+    return n
 
 
 def run(tier, cmd):
